@@ -763,6 +763,26 @@ class SimpleTypes:
             r = self._lex_eval(e.right, f, cls, env, depth)
             if r[0] == "raises":
                 return r
+            # linear factor: a number read from the lexeme, multiplied / divided by constants, stays (factor x number)
+            lv, rv = l[1], r[1]
+            kl = lv[2] if lv[0] == "num" and len(lv) > 2 else None
+            cr = self.prog.const(e.right, f.module, None, cls)
+            cl = self.prog.const(e.left, f.module, None, cls)
+            from fractions import Fraction as _F
+
+            def frac(x):
+                try:
+                    return _F(str(x)) if isinstance(x, (int, float)) and not isinstance(x, bool) else None
+                except (ValueError, ZeroDivisionError):
+                    return None
+            if kl is not None and frac(cr) not in (None, 0):
+                if isinstance(e.op, ast.Div):
+                    return ("ok", ("num", None, kl / frac(cr)))
+                if isinstance(e.op, ast.Mult):
+                    return ("ok", ("num", None, kl * frac(cr)))
+            kr = rv[2] if rv[0] == "num" and len(rv) > 2 else None
+            if kr is not None and frac(cl) is not None and isinstance(e.op, ast.Mult):
+                return ("ok", ("num", None, kr * frac(cl)))
             return ("ok", ("num", None))
         if isinstance(e, ast.Call):
             fn = dotted(e.func)
@@ -773,7 +793,11 @@ class SimpleTypes:
                 v = a[1]
                 if v[0] == "lex":
                     ok = v[1].is_int() if fn == "int" else v[1].is_float()
-                    return ("ok", ("num", fn)) if ok else ("raises", "ValueError")
+                    from fractions import Fraction as _F2
+
+                    return ("ok", ("num", fn, _F2(1))) if ok else ("raises", "ValueError")
+                if v[0] == "num" and len(v) > 2:
+                    return ("ok", ("num", fn, v[2]))   # int()/float() of a scaled number keeps the factor (rounding aside)
                 return ("ok", ("num", fn))
             if fn in ("Emu", "Centipoints", "round", "Length") and e.args:
                 a = self._lex_eval(e.args[0], f, cls, env, depth)
